@@ -574,7 +574,7 @@ def r8_symmetric_tests(ctx):
             ctx.ob('C17.R8', 'both-sides|%s|%s' % (b.nid.replace(T, ''), e.split('::')[-1]), set(m) == {1, 2}, m.get(1) or m.get(2),
                    '%s is matched on for %s' % (e.split('::')[-1], 'both operands' if set(m) == {1, 2} else
                                                'the %s operand only: the condition it guards is one-sided' % ('self' if 1 in m else 'other')))
-    ctx.floor('C17.R8', 'enums tested per side in the equivalence functions', n, 3)
+    ctx.floor('C17.R8', 'enums tested per side in the equivalence functions', n, 1)
 
 
 def check(ctx):
